@@ -100,7 +100,13 @@ def mutate(g, raw):
         fs = [f for f in frame_fields(raw) if f[0] + f[1] <= len(raw)]
         if not fs:
             return bytes(b) + b'\x00', 'append a byte'
-        off, wd, name = fs[g.draw(len(fs), 'fld')]
+        # the fields that steer how much is read or written are mutated three times as often as envelope fields
+        hot = ('elements', 'type', 'offset', 'multi_count', 'path_size', 'symbol_len', 'msg_length', 'route_size',
+               'item1.length', 'item0.length', 'encap.length', 'cpf.count')
+        pool = []
+        for f in fs:
+            pool += [f] * (3 if (f[2].endswith(hot) or 'multi_offset' in f[2]) else 1)
+        off, wd, name = pool[g.draw(len(pool), 'fld')]
         cur = int.from_bytes(b[off:off + wd], 'little')
         top = (1 << (8 * wd)) - 1
         nv = g.choice([0, 1, cur + 1, max(cur - 1, 0), cur * 2, cur + 2, top, top - 1, top >> 1, g.draw(top + 1, 'rv') if top < 70000 else g.draw(70000, 'rv')], 'nv') & top
